@@ -57,6 +57,12 @@ func mutatePayload(p ctrlertypes.ITrxPayload, r *rand.Rand) map[string]ctrlertyp
 	case *ctrlertypes.TrxPayloadContract:
 		out["contract.data"] = &ctrlertypes.TrxPayloadContract{Data: flip(q.Data, r.Intn(64))}
 		out["contract.data+byte"] = &ctrlertypes.TrxPayloadContract{Data: append(append([]byte(nil), q.Data...), 0)}
+		if len(q.Data) == 1 {
+			out["contract.data-next-byte"] = &ctrlertypes.TrxPayloadContract{Data: []byte{q.Data[0] + 1}}
+		}
+		if len(q.Data) == 0 {
+			out["contract.data-one-small-byte"] = &ctrlertypes.TrxPayloadContract{Data: []byte{2}}
+		}
 	case *ctrlertypes.TrxPayloadSetDoc:
 		out["setdoc.name"] = &ctrlertypes.TrxPayloadSetDoc{Name: q.Name + "x", URL: q.URL}
 		out["setdoc.url"] = &ctrlertypes.TrxPayloadSetDoc{Name: q.Name, URL: q.URL + "x"}
@@ -115,9 +121,15 @@ func honestTx(r *rand.Rand, ty int32, from rtypes.Address) *ctrlertypes.Trx {
 		pl = &ctrlertypes.TrxPayloadUnstaking{TxHash: hash}
 	case ctrlertypes.TRX_WITHDRAW:
 		pl = &ctrlertypes.TrxPayloadWithdraw{ReqAmt: uint256.NewInt(r.Uint64())}
+		if r.Intn(3) == 0 { // small amounts: their RLP encoding is a single byte
+			pl = &ctrlertypes.TrxPayloadWithdraw{ReqAmt: uint256.NewInt([]uint64{0, 1, 5, 100, 126}[r.Intn(5)])}
+		}
 	case ctrlertypes.TRX_CONTRACT:
 		d := make([]byte, r.Intn(100))
 		r.Read(d)
+		if r.Intn(3) == 0 {
+			d = [][]byte{{}, {1}, {0x7e}, {0x80}}[r.Intn(4)]
+		}
 		pl = &ctrlertypes.TrxPayloadContract{Data: d}
 	case ctrlertypes.TRX_SETDOC:
 		pl = &ctrlertypes.TrxPayloadSetDoc{Name: fmt.Sprintf("n%d", r.Intn(1000)), URL: fmt.Sprintf("http://u/%d", r.Intn(1000))}
